@@ -139,6 +139,41 @@ def _pdfh():
     return os.path.join(core.HARNESS, "target", "debug", "pdfh")
 
 
+def _startxref(data):
+    i = data.rfind(b"startxref")
+    try:
+        return int(data[i + 9:].split()[0])
+    except (ValueError, IndexError):
+        return None
+
+
+def boundary_docs(rng):
+    out = []
+    blank = {"mb": [0, 0, 612, 792], "cb": None, "tb": None, "rot": 0, "ops": "", "other": {}}
+    for target, pages in ((256, []), (65536, [dict(blank, ops="".join(rng.choice("qQmlw") for _ in range(9000)))])):
+        n, hit = 0, None
+        for _ in range(6):
+            info = {"Title": b"A" * n}
+            f = [b"u", b"\n".join(page_line(p) for p in pages), info_text(info)]
+            r = core.run_parallel(_pdfh(), ["build " + " ".join(hexf(x) for x in f)], per_case_timeout=20.0)[0]
+            if r is None or r[0] != "OK" or not r[1]:
+                break
+            sx = _startxref(r[1][0])
+            if sx is None:
+                break
+            if sx == target:
+                hit = n
+                break
+            n = n + (target - sx)
+            if n < 0:
+                break
+        if hit is not None:
+            for dn in (-1, 0, 1):
+                if hit + dn >= 0:
+                    out.append(([dict(p) for p in pages], {"Title": b"A" * (hit + dn)}))
+    return out
+
+
 def generate(rng, tier):
     n = 60 if tier == "quick" else 1500
     docs = [([], None), ([], {})] + [gen_doc(rng) for _ in range(n)]
@@ -150,6 +185,9 @@ def generate(rng, tier):
         for p in pages[:3]:
             p["ops"] = "".join(rng.choice(OPS) for _ in range(rng.choice([12000, 20000, 35000])))
         docs.append((pages, info))
+    # a cross-reference stream that starts exactly at a power of 256 (the largest offset of the table is its own: the column width of
+    # XRefTable::write_stream / byte_len changes there): the title is padded until `startxref` is 255, 256, 257 resp. 65535, 65536, 65537
+    docs += boundary_docs(rng)
     lines = []
     for pages, info in docs:
         f = [b"u", b"\n".join(page_line(p) for p in pages), info_text(info)]
